@@ -19,6 +19,10 @@ def yd_line(i):
 
 
 def acti_line(i):
+    if i % 7 == 3:
+        # a fast-packet message arrives as ONE line with the whole payload: PGN 126996 product information, 134 bytes = 292 characters
+        p = (2100).to_bytes(2, "little") + (1000 + i).to_bytes(2, "little") + b"".join(t.ljust(32, b"\xff") for t in (b"GPS 24xd", b"5.60", b"1", b"39998%05d" % i)) + bytes([2, 1])
+        return ("A%06d.100 23FF6 1F014 %s\r\n" % (i, p.hex().upper())).encode()
     return ("A%06d.000 01FF6 1F214 %02X02030405060708\r\n" % (i, i & 0xFF)).encode()
 
 
